@@ -1,6 +1,10 @@
 //! C20 — size and interval literals through the real serde front-ends.
 //! case: ( kind form payload fmt )
 //!   kind 0: SizeTriggerConfig.limit      kind 1: TimeTriggerConfig.interval
+//!   kind 2: RawConfig.refresh_rate (string forms 2/3 only).  Result ( crate humantime ) where each
+//!           is (0) rejected | (1 secs nanos): what RawConfig::refresh_rate() holds after
+//!           deserialising `refresh_rate: <literal>`, and what humantime::parse_duration returns
+//!           for the SAME literal (direct third-party oracle; humantime is not modelled)
 //!   form 0: integer scalar, payload = Z (sign magnitude), written in decimal
 //!   form 1: float scalar, payload = bytes of the literal text, written verbatim
 //!   form 2: quoted string scalar, payload = list of code points (everything outside
@@ -79,12 +83,39 @@ fn run(case: &Val) -> Val {
             c[2].l()[1].str()
         }
     };
-    let key = if kind == 0 { "limit" } else { "interval" };
+    let key = match kind {
+        0 => "limit",
+        1 => "interval",
+        _ => "refresh_rate",
+    };
     let doc = if fmt == 0 {
         format!("{}: {}\n", key, scalar)
     } else {
         format!("{{\"{}\": {}}}", key, scalar)
     };
+    if kind == 2 {
+        fn dur(d: Option<std::time::Duration>) -> Val {
+            match d {
+                Some(d) => Val::L(vec![Val::N(1), Val::N(d.as_secs() as u128), Val::N(d.subsec_nanos() as u128)]),
+                None => Val::L(vec![Val::N(0)]),
+            }
+        }
+        assert!(form == 2 || form == 3, "refresh_rate: string forms only");
+        let r: Result<log4rs::config::RawConfig, String> = if fmt == 0 {
+            serde_yaml::from_str(&doc).map_err(|e| e.to_string())
+        } else {
+            serde_json::from_str(&doc).map_err(|e| e.to_string())
+        };
+        let got = match r {
+            Ok(cfg) => match cfg.refresh_rate() {
+                Some(d) => dur(Some(d)),
+                None => Val::L(vec![Val::N(9)]), // accepted but absent: never expected
+            },
+            Err(_) => dur(None),
+        };
+        let direct = dur(humantime::parse_duration(&text_of(&c[2])).ok());
+        return Val::L(vec![got, direct]);
+    }
     if kind == 0 {
         let r: Result<SizeTriggerConfig, String> = if fmt == 0 {
             serde_yaml::from_str(&doc).map_err(|e| e.to_string())
